@@ -8,6 +8,8 @@
 
 #include "driver.h"
 #include "exec.h"
+#include "gen.h"
+#include "rng.h"
 #include "world.h"
 
 namespace sim {
@@ -104,6 +106,41 @@ int main(int argc, char **argv)
 	}
 	a.verif_dir = verif;
 
+	if (cmd == "gentest") {
+		// generator self-check: how often is a "valid" rendered text rejected, and why
+		uint64_t bad = 0, n = samples;
+		for (uint64_t i = 0; i < n; i++) {
+			Rng r(mix(a.seed, i));
+			SchemaGen sg;
+			sg.funcs = true;
+			sg.include = true;
+			sg.ptrs = true;
+			sg.pcb = r.chance(1, 2);
+			sg.vcb = r.chance(1, 2);
+			sg.keystrval = true;
+			json schema = gen_schema(r, sg);
+			int flags = (r.chance(1, 2) ? F_COMMENTS : 0) | (r.chance(1, 4) ? F_NOCASE : 0);
+			TextGen tg;
+			tg.ctx_flags = flags;
+			tg.comments = 2;
+			tg.skip_include = true;
+			json plan;
+			plan["schemas"] = json::array({schema});
+			json init = {{"cl", 0}, {"op", "init"}, {"c", 0}, {"flags", flags}};
+			json p = {{"cl", 0}, {"op", "parse"}, {"c", 0}, {"src", {{"kind", "buf"}, {"chunks", chunks_to_json(gen_text(r, schema["opts"], tg))}}}};
+			plan["steps"] = json::array({init, p});
+			RunResult rr = execute(plan);
+			if (rr.ops.size() > 1 && (rr.ops[1].ret != 0 || !rr.ops[1].diags.empty())) {
+				bad++;
+				if (bad <= 12)
+					dprintf(g_out_fd, "---- seed index %lu ret=%ld diag=%s:%d\nSCHEMA %s\nTEXT %s\n", (unsigned long)i, rr.ops[1].ret,
+						rr.ops[1].diags.empty() ? "-" : rr.ops[1].diags[0].file.c_str(), rr.ops[1].diags.empty() ? 0 : rr.ops[1].diags[0].line,
+						schema.dump().substr(0, 1500).c_str(), esc(source_text(p["src"])).c_str());
+			}
+		}
+		dprintf(g_out_fd, "gentest: %lu of %lu generated texts were not accepted silently\n", (unsigned long)bad, (unsigned long)n);
+		return 0;
+	}
 	if (cmd == "list") {
 		for (auto *p : all_properties())
 			dprintf(g_out_fd, "%s %s\n", p->id.c_str(), p->level.c_str());
